@@ -58,7 +58,7 @@
       failed); [find_reg id regs] = [Registers.Find]. *)
 From Coq Require Import NArith String List.
 From CSS Require Import Lib.SymBits Lib.RegTypes Lib.RegOblig Lib.RegFresh Model.Registers Model.RegisterHeap Model.RegistersDec.
-From CSS Require Import Proofs.SymBits Proofs.Registers Proofs.RegisterHeap Proofs.RegistersRead Proofs.RegistersDec.
+From CSS Require Import Proofs.SymBits Proofs.Registers Proofs.RegisterHeap Proofs.RegistersRead Proofs.RegistersDec Proofs.RegistersAgree Proofs.RegistersMsr.
 Import ListNotations.
 Open Scope N_scope.
 
